@@ -377,6 +377,10 @@ func c18Run(env *core.Env, c c18Case) (bool, bool) {
 		case "sibling":
 			value, modelValue = siblingValue(fd, rng)
 			frameOnly = modelValue == nil
+			if modelValue == invalidCodeMarker {
+				// an element cannot hold a string that is not a code of its value set: not a valid operation
+				modelValue, frameOnly = nil, false
+			}
 		case "wrong":
 			// a type that fits no field but Patient.communication (open choices such as Extension.value accept most datatypes)
 			value = &ppb.Patient_Communication{Preferred: &dtpb.Boolean{Value: true}}
@@ -699,7 +703,18 @@ func siblingValue2(fd protoreflect.FieldDescriptor, r *core.Rng) (proto.Message,
 			ev := vf.Enum().Values().Get(1 + r.Intn(vf.Enum().Values().Len()-1))
 			code := gen.OriginalCode(ev)
 			if r.Intn(4) == 0 {
-				return &dtpb.Code{Value: "not-a-valid-code"}, nil
+				// strings that are not codes of the value set, some of them one separator / one letter case away from one
+				bad := []string{"not-a-valid-code", strings.ReplaceAll(code, "-", "_"), strings.ReplaceAll(code, "-", " "), strings.ReplaceAll(code, "-", "."), strings.ToUpper(code), code + "-", " " + code, strings.ToUpper(code[:1]) + code[1:]}
+				pick := bad[r.Intn(len(bad))]
+				isCode := false
+				for i := 0; i < vf.Enum().Values().Len(); i++ {
+					if gen.OriginalCode(vf.Enum().Values().Get(i)) == pick {
+						isCode = true
+					}
+				}
+				if !isCode {
+					return &dtpb.Code{Value: pick}, invalidCodeMarker
+				}
 			}
 			if ev.Number() == 0 {
 				return &dtpb.Code{Value: code}, nil
@@ -722,6 +737,9 @@ func siblingValue2(fd protoreflect.FieldDescriptor, r *core.Rng) (proto.Message,
 	}
 	return siblingValue1(fd, r), nil
 }
+
+// invalidCodeMarker stands for "this code is not in the value set": the operation must fail.
+var invalidCodeMarker proto.Message = &dtpb.Code{Value: "\x00invalid"}
 
 func siblingValue1(fd protoreflect.FieldDescriptor, r *core.Rng) proto.Message {
 	md := fd.Message()
@@ -1195,6 +1213,38 @@ func c18Codes(env *core.Env, reverse bool) {
 				}
 				if dup != 1 || ev.Number() == 0 {
 					continue
+				}
+				// strings one separator / letter case away from this code that are not codes of the value set: refused
+				if strings.Contains(code, "-") {
+					for _, bad := range []string{strings.ReplaceAll(code, "-", "_"), strings.ReplaceAll(code, "-", " "), strings.ReplaceAll(code, "-", "."), strings.ToUpper(code)} {
+						isCode := false
+						for q := 0; q < vals.Len(); q++ {
+							if gen.OriginalCode(vals.Get(q)) == bad {
+								isCode = true
+							}
+						}
+						if isCode || fd.IsList() {
+							continue
+						}
+						res := gen.NewMessage(md)
+						res.Set(fs.ByName("id"), protoreflect.ValueOfMessage((&dtpb.Id{Value: "c"}).ProtoReflect()))
+						r := res.Interface().(fhir.Resource)
+						before := protoBytes(r)
+						var perr error
+						out := env.Guard("patch.Add near-miss code", func() {
+							perr = patch.Add(r, string(md.Name()), fd.JSONName(), &dtpb.Code{Value: bad}, &patch.Options{})
+						})
+						env.Eval(1)
+						env.Cover("code-patch-near-miss")
+						if out.Panicked || out.Dead {
+							continue
+						}
+						if perr == nil {
+							env.Violatef("C18/code-patch/add/invalid-code-accepted", "patch.Add(%s, %q, code %q) returned nil although %q is not a code of the element's value set (the nearest code is %q); the element now holds %s", md.Name(), fd.JSONName(), bad, bad, code, trunc(jsonOf(r), 200))
+						} else if protoBytes(r) != before {
+							env.Violatef("C18/code-patch/add/mutated-on-error", "patch.Add(%s, %q, code %q) failed (%v) but changed the resource", md.Name(), fd.JSONName(), bad, perr)
+						}
+					}
 				}
 				for _, op := range []string{"add", "replace"} {
 					res := gen.NewMessage(md)
